@@ -161,6 +161,73 @@ PROPS = {
         thorough=plans(dict(build="dbg", nshards=16), dict(build="rel", nshards=16), dict(build="asan", nshards=16, scale=0.2), dict(build="miri", nshards=16, timeout=3000)),
         min_evaluations=100000,
     ),
+    "C10": dict(
+        technique="requests signed by the harness's own HMAC-SHA1/SHA256 (RFC 2202/4231 self-tested); responses decoded by W; "
+                  "response MACs recomputed per RFC 8945 §4.3 from the request MAC; outcome oracle per RFC 8945 §5.2 order",
+        rule="scenarios = catalog + 1-3 keys (both algorithms, 1-100-octet secrets, key names related to zone names, 190-octet "
+             "names); 24 signed queries per scenario drawn from: valid (time offset within fudge-10 s), allowed truncation, "
+             "corrupted MAC, unknown key, unknown algorithm, key used with the other algorithm, MAC length outside "
+             "[max(10,half),full], stale and future times (>= 10 s outside the window), corrupted MAC + stale; key names "
+             "spelled in random case; UDP and TCP; EDNS on/off. distinct = (variant, algorithm, RCODE, TC) classes",
+        assumptions=COMMON_ASSUMPTIONS + [
+            "the server reads the real clock: time offsets are drawn >= 10 s inside or outside the fudge window, and server "
+            "times are accepted within 5 s of the harness's clock",
+            "when question + OPT + TSIG cannot fit the transport limit only 'well-formed, within limit, no answer data' is demanded",
+            "Miri cannot execute the sha1/sha2 assembly; this property is covered natively and under ASan/valgrind"],
+        quick=plans(dict(build="dbg", nshards=16)),
+        thorough=plans(dict(build="dbg", nshards=16), dict(build="rel", nshards=16), dict(build="asan", nshards=16, scale=0.2),
+                       dict(build="vg", nshards=16, scale=0.01, timeout=3000)),
+        min_evaluations=50000,
+    ),
+    "C11": dict(
+        technique="MACs produced by Writer::set_tsig/finish_with_mac compared with an independent RFC 8945 §4.3 computation; "
+                  "verification driven over time-window edges, every MAC length, and single-octet corruption of every covered octet",
+        rule="messages built with the Writer (random header, 0-1 question, 0-3 records, optional OPT), signed as request / "
+             "response / subsequent with both algorithms, 1-128-octet keys, times 0 / 2^48-1 / random, fudge 0/1/300/65535, "
+             "errors incl. BADTIME (other-data), prior MACs of 0-64 octets; per message: 5 time probes (edges of the window), "
+             "9 MAC lengths around the allowed range, a wrong truncated MAC, bit 0 flipped in every octet from offset 2 "
+             "(<= 260 octets in quick), corrupted prior MAC, wrong key. distinct = (mode, algorithm, error, prior length) and probe classes",
+        assumptions=COMMON_ASSUMPTIONS + [
+            "octets 0-1 (message ID) are not corrupted: the digest covers the original ID from the TSIG RR instead",
+            "for subsequent messages only the timers of the TSIG RR are covered (RFC 8945 §4.3.3.1); corruptions of other TSIG "
+            "fields that still verify are counted, not flagged"],
+        quick=plans(dict(build="dbg", nshards=16)),
+        thorough=plans(dict(build="dbg", nshards=16), dict(build="rel", nshards=16), dict(build="asan", nshards=16, scale=0.2),
+                       dict(build="vg", nshards=16, scale=0.01, timeout=3000)),
+        min_evaluations=100000,
+    ),
+    "C12": dict(
+        technique="random Writer programs against a shadow model (only successful operations applied); the finished message "
+                  "is decoded by W and compared field by field; MACs by the harness HMAC; size-limit and no-needless-"
+                  "truncation oracles from bounds on the limit in force",
+        rule="programs of 1-28 operations over every public Writer method (header setters, add_question, the six "
+             "add_*_rr/rrset with hints that obey the API contract incl. Explicit pointers from HintPointerVec, set_limit, "
+             "set_compression_mode, set_edns, set_extended_rcode 0..8191, set_rcode, set_tsig in all four modes incl. BADTIME, "
+             "update_time_signed, clear_rrs, into_template/try_from_template(_as_tsig_subsequent) into smaller/larger buffers); "
+             "12 pool names with shared suffixes and case variants plus ~190-octet names; 14 class/type pairs (all name-bearing "
+             "RFC 1035 types, SRV, CH A, TXT, A, unknown); 1/25 RDATA damaged; buffers 12..70000, initial limits below the "
+             "buffer size. distinct = (section sizes, EDNS, TSIG mode, pointer count, final compression mode) classes",
+        assumptions=COMMON_ASSUMPTIONS + [
+            "the exact size limit after set_limit() below the current size depends on the compressed cursor; the monitor "
+            "uses sound lower/upper bounds (uncompressed size of what was accepted)",
+            "Miri cannot run the hashing assembly: under Miri only the unsigned TSIG mode is used"],
+        quick=plans(dict(build="dbg", nshards=16), dict(build="miri", nshards=4, timeout=900)),
+        thorough=plans(dict(build="dbg", nshards=16), dict(build="rel", nshards=16), dict(build="asan", nshards=16, scale=0.2), dict(build="miri", nshards=16, timeout=3000)),
+        min_evaluations=50000,
+    ),
+    "C13": dict(
+        technique="same Writer programs as C12; pointer oracle over W's metadata (pointer position, target, physical label "
+                  "starts, which field each name belongs to)",
+        rule="as C12; judged: every first pointer of every name targets a lower offset that is the first octet of a "
+             "non-root label physically written in an earlier name and not inside the header; RDATA of SRV / CH A / unknown "
+             "types and the TSIG RDATA are octet-identical to the input (no pointer can have been emitted there); no name "
+             "written while compression was disabled contains a pointer; none at all when it was disabled throughout. "
+             "evidence counts pointers checked (outcome_histogram.pointers-checked)",
+        assumptions=COMMON_ASSUMPTIONS,
+        quick=plans(dict(build="dbg", nshards=16), dict(build="miri", nshards=4, timeout=900)),
+        thorough=plans(dict(build="dbg", nshards=16), dict(build="rel", nshards=16), dict(build="asan", nshards=16, scale=0.2), dict(build="miri", nshards=16, timeout=3000)),
+        min_evaluations=50000,
+    ),
     "C14": dict(
         technique="differential execution against an independent RFC 1035 §4.1.4 decoder; panic monitor; Miri/ASan on the same workload",
         rule="exhaustive: every buffer of length <= 5 over the 12 significant octets {0,1,2,3,63,64,0x80,0xbf,0xc0,0xc1,0xff,'a'} "
